@@ -32,13 +32,14 @@ type C12Marker struct {
 
 // C12Sheet is a whole sample sheet plus the command-line override of the primer budget.
 type C12Sheet struct {
-	Format   string // legacy | csv
-	Matching string // strict | hamming | indel (legacy: always strict)
-	Markers  []C12Marker
-	CmdErr   int // value of -e (0 = option not given)
-	Delim    bool
-	LongLine bool // one legacy sample line is longer than 64 KiB
-	Text     string
+	Format       string // legacy | csv
+	Matching     string // strict | hamming | indel (legacy: always strict)
+	Markers      []C12Marker
+	CmdErr       int // value of -e (0 = option not given)
+	Delim        bool
+	LongLine     bool // one legacy sample line is longer than 64 KiB
+	ClosePrimers bool // the forward primers of two markers differ by one substitution
+	Text         string
 }
 
 // BudgetF / BudgetR: effective primer mismatch budgets of marker i.
@@ -192,9 +193,28 @@ func C12MakeSheet(r *rand.Rand, opt C12Opt) *C12Sheet {
 			}
 		}
 	}
+	closePrimers := nm > 1 && r.Intn(6) == 0
 	ns := 0
 	for mi := 0; mi < nm; mi++ {
 		m := C12Marker{Fwd: newPrimer(), Rev: newPrimer(), FErr: 2, RErr: 2}
+		if mi > 0 && closePrimers {
+			// a variant of the forward primer of the first marker (one substitution: inside every
+			// non-zero budget), with an unrelated reverse primer
+			f := []byte(sh.Markers[0].Fwd)
+			for {
+				i := r.Intn(len(f))
+				if strings.IndexByte(ACGT, f[i]) < 0 {
+					continue
+				}
+				f[i] = ACGT[(strings.IndexByte(ACGT, f[i])+1+r.Intn(3))%4]
+				break
+			}
+			if !seenPrimer[string(f)] && !seenPrimer[C12RC(string(f))] {
+				seenPrimer[string(f)] = true
+				m.Fwd = string(f)
+				sh.ClosePrimers = true
+			}
+		}
 		m.Form = []string{"pair", "pair", "pair", "pair", "pair", "same", "same", "fonly", "ronly", "pair"}[r.Intn(10)]
 		tl := func() int {
 			if delim != 0 { // delimited / rescued tags: long enough for tag_indels (<= 2) to make sense
